@@ -13,7 +13,7 @@ BE_MAGIC = LE_MAGIC[::-1]
 
 COMPAT = ['ASCII', 'UTF-8', 'ISO-8859-1', 'ISO-8859-2', 'KOI8-R', 'CP1252', 'ISO-8859-15', 'utf8', 'latin1', 'us-ascii']
 NONCOMPAT = ['UTF-16', 'UTF-32', 'cp037', 'UTF-16LE']
-UNKNOWN = ['bogus-charset', 'X-UNKNOWN', 'CHARSET', 'utf-8;']
+UNKNOWN = ['bogus-charset', 'X-UNKNOWN', 'CHARSET', 'no-such-codec']
 
 ALPHABETS = {
     'ASCII': 'abcxyz ABC%s{0}\t<>&;:=-_.,!?\\"\'012',
